@@ -8,7 +8,8 @@ from engine.checks import py_common
 
 ROOT = os.path.dirname(os.path.dirname(os.path.dirname(
     os.path.abspath(__file__))))
-FUNCS = [('modeling.py', 'contracts.py.lin_spec', '_lin._addterm')]
+FUNCS = [('modeling.py', 'contracts.py.lin_spec', '_lin._addterm'),
+         ('modeling.py', 'contracts.py.function_spec', '_function.__imul__')]
 
 
 class Battery:
@@ -55,6 +56,8 @@ def make_replayer():
         want = [ob.kind]
         if ob.kind in ('addterm-shape', 'addterm-frame'):
             want.append('addterm-value')
+        if ob.kind == 'imul-returns-self':
+            want.append('imul-value')
         hits = {k: v for k, v in bat.result.items() if k in want}
         info = {'battery': 'engine/replay/expr_battery.py on an overlay '
                 'build of the current tree: f.value() of sums in which a '
